@@ -68,6 +68,20 @@ theorem relay_survives_checkpoint {τ : Type} (save : σ → τ) (load : τ → 
   rw [hls]
   exact relay_exactly_once R getPending setPending hgs s a₁ a₂
 
+/-- going BACK to an earlier checkpoint (`SimulationRuntime.load`, engine rollback): whatever was played on the
+    abandoned time line after the checkpoint was taken — `later` — the first action after the restore relays exactly
+    the events that were pending when the checkpoint was taken, and none of the abandoned ones -/
+theorem relay_after_restore_to_an_earlier_checkpoint {τ : Type} (save : σ → τ) (load : τ → σ)
+    (hgs : ∀ s p, getPending (setPending s p) = p) (hls : ∀ s, getPending (load (save s)) = getPending s)
+    (s : σ) (a₁ a₂ : Action) (later : List Action) :
+    let taken := save (play R getPending setPending s a₁).1
+    let _abandoned := later.foldl (fun st a => (play R getPending setPending st a).1) (play R getPending setPending s a₁).1
+    dispatched getPending (load taken) a₂
+      = ((play R getPending setPending s a₁).2.map emittedOf).reverse ++ [a₂]
+          ++ (play R getPending setPending s a₁).2.map doneOf := by
+  intro taken _
+  exact relay_survives_checkpoint R getPending setPending save load hgs hls s a₁ a₂
+
 /-- the events of a play are the router's answers to the queue, in queue order -/
 theorem play_events (s : σ) (a : Action) :
     (play R getPending setPending s a).2 = (runQueue R s (buildQueue (getPending s) a)).2 := rfl
